@@ -149,6 +149,7 @@ type Kernel struct {
 	tasks        []*Task
 
 	step       int
+	stepA      atomic.Int64 // mirror of step for readers on other goroutines
 	startTime  time.Time
 	lastGid    uint64
 	digest     uint64
@@ -238,7 +239,11 @@ func IsAbort(r interface{}) bool { _, ok := r.(abortSignal); return ok }
 func (k *Kernel) Digest() uint64    { return k.digest }
 func (k *Kernel) SchedHash() uint64 { return k.schedHash }
 func (k *Kernel) Step() int         { return k.step }
-func (k *Kernel) Trace() []string   { return k.trace }
+
+// StepAny is Step for goroutines other than the driver (callbacks from lal's own goroutines).
+func (k *Kernel) StepAny() int { return int(k.stepA.Load()) }
+
+func (k *Kernel) Trace() []string { return k.trace }
 
 // NowMs is simulated milliseconds since the run started.
 func (k *Kernel) NowMs() int64 { return time.Since(k.startTime).Milliseconds() }
@@ -924,6 +929,7 @@ func (k *Kernel) StepOnce() bool {
 		return false
 	}
 	k.step++
+	k.stepA.Store(int64(k.step))
 	k.Stats.Steps++
 	if k.step%500 == 0 {
 		// heartbeat for the orchestrator's stall watchdog: the run is slow, not stuck
@@ -980,6 +986,16 @@ func (k *Kernel) Advance(d time.Duration) {
 		}
 		k.Settle()
 	}
+	k.Stats.SimMs = k.NowMs()
+}
+
+// SleepHolding lets d of simulated time pass without performing any enabled action first: goroutines that are parked
+// (waiting for the driver to grant a lock or a write) stay parked, and goroutines woken by timers during d run until
+// they park. It models threads that are descheduled while holding locks (a stalled node) when timers are due.
+func (k *Kernel) SleepHolding(d time.Duration) {
+	synctest.Wait()
+	time.Sleep(d)
+	synctest.Wait()
 	k.Stats.SimMs = k.NowMs()
 }
 
